@@ -16,9 +16,24 @@ import copy
 
 
 def _single_return(fn):
+    """The expression a helper returns: `return <expr>`, possibly after plain local assignments (each name bound once, not a
+    parameter), which are substituted into it."""
     body = [s for s in fn.body if not (isinstance(s, ast.Expr) and isinstance(s.value, ast.Constant))]
     if len(body) == 1 and isinstance(body[0], ast.Return) and body[0].value is not None:
         return body[0].value
+    if len(body) > 1 and isinstance(body[-1], ast.Return) and body[-1].value is not None \
+            and all(isinstance(b, ast.Assign) and len(b.targets) == 1 and isinstance(b.targets[0], ast.Name) for b in body[:-1]):
+        params = {a.arg for a in fn.args.args + fn.args.kwonlyargs}
+        names = [b.targets[0].id for b in body[:-1]]
+        if len(set(names)) != len(names) or set(names) & params:
+            return None
+        env = {}
+        for b in body[:-1]:
+            v = _Subst(env).visit(copy.deepcopy(b.value)) if env else copy.deepcopy(b.value)
+            if any(isinstance(x, (ast.Call, ast.Yield, ast.Await, ast.NamedExpr)) for x in ast.walk(v)):
+                return None   # (a call must not be duplicated or moved)
+            env[b.targets[0].id] = v
+        return _Subst(env).visit(copy.deepcopy(body[-1].value))
     return None
 
 
@@ -198,6 +213,23 @@ def normalise_function(node, methods=None, module=None):
                         return self.visit(new)
                     finally:
                         self.depth -= 1
+            # f(a=1, **{"b": x, "c": y}) == f(a=1, b=x, c=y) == f(a=1, **dict(b=x, c=y))
+            def lit(v):
+                if isinstance(v, ast.Dict) and v.keys and all(isinstance(q, ast.Constant) and isinstance(q.value, str) for q in v.keys):
+                    return [(q.value, x) for q, x in zip(v.keys, v.values)]
+                if isinstance(v, ast.Call) and isinstance(v.func, ast.Name) and v.func.id == "dict" and not v.args and v.keywords and all(q.arg for q in v.keywords):
+                    return [(q.arg, q.value) for q in v.keywords]
+                return None
+            if any(k.arg is None and lit(k.value) for k in c.keywords):
+                kws = []
+                for k in c.keywords:
+                    if k.arg is None and lit(k.value):
+                        for q, v in lit(k.value):
+                            kws.append(ast.copy_location(ast.keyword(arg=q, value=v), v))
+                    else:
+                        kws.append(k)
+                if len({k.arg for k in kws if k.arg}) == len([k for k in kws if k.arg]):
+                    c.keywords = kws
             if isinstance(f, ast.Name) and f.id in aliases:
                 c.func = f = ast.copy_location(copy.deepcopy(aliases[f.id]), f)
             if methods and isinstance(f, ast.Attribute) and isinstance(f.value, ast.Name) and f.value.id == "self" and f.attr in methods and self.depth < 6 \
